@@ -101,26 +101,38 @@ def KA.isOld (a : KA) (pn : Int) : Bool :=
 def KA.remoteUpdateTooQuick (a : KA) : Bool :=
   decide (a.keyPhase > 0) && decide (a.firstSentWithCurrentKey = invalidPN)
 
+/-- the branch structure of the unexported `open` on the state after the expiry check: the result and
+    which key was tried.  (The Go function is this decision interleaved with the state updates of
+    `openApply`; they are separated here so that each can be reasoned about on its own.) -/
+def KA.openDecide (b : KA) (pn kp : Int) (p : Pkt) : Res × Used :=
+  if kp ≠ bit b.keyPhase then
+    if b.isOld pn then
+      if !b.prevPresent then (.keysDropped, .none)
+      else if aeadOpens (b.keyPhase - 1) p then (.ok, .prev)
+      else (.decryptionFailed, .prev)
+    else if !aeadOpens (b.keyPhase + 1) p then (.decryptionFailed, .next)
+    else if b.remoteUpdateTooQuick then (.keyUpdateError, .next)
+    else (.ok, .next)
+  else if !aeadOpens b.keyPhase p then (.decryptionFailed, .cur)
+  else (.ok, .cur)
+
+/-- the state updates of `open` for each outcome -/
+def KA.openApply (b : KA) (e : Env) (rcvTime pn : Int) : Res × Used → KA
+  | (.ok, .next) =>
+    -- rollKeys(); startKeyDropTimer(rcvTime); firstRcvdWithCurrentKey = pn
+    { (b.rollKeys.startKeyDropTimer e rcvTime) with firstRcvdWithCurrentKey := pn }
+  | (.ok, .cur) =>
+    let b := { b with numRcvdWithCurrentKey := b.numRcvdWithCurrentKey + 1 }
+    if b.firstRcvdWithCurrentKey = invalidPN then
+      { (if b.keyPhase > 0 then b.startKeyDropTimer e rcvTime else b) with firstRcvdWithCurrentKey := pn }
+    else b
+  | _ => b
+
 /-- the unexported `open` -/
 def KA.openInner (a : KA) (e : Env) (rcvTime pn kp : Int) (p : Pkt) : KA × Res × Used :=
-  let a := a.dropExpired rcvTime
-  if kp ≠ bit a.keyPhase then
-    if a.isOld pn then
-      if !a.prevPresent then (a, .keysDropped, .none)
-      else if aeadOpens (a.keyPhase - 1) p then (a, .ok, .prev)
-      else (a, .decryptionFailed, .prev)
-    else if !aeadOpens (a.keyPhase + 1) p then (a, .decryptionFailed, .next)
-    else if a.remoteUpdateTooQuick then (a, .keyUpdateError, .next)
-    else
-      let a := (a.rollKeys.startKeyDropTimer e rcvTime)
-      ({ a with firstRcvdWithCurrentKey := pn }, .ok, .next)
-  else if !aeadOpens a.keyPhase p then (a, .decryptionFailed, .cur)
-  else
-    let a := { a with numRcvdWithCurrentKey := a.numRcvdWithCurrentKey + 1 }
-    if a.firstRcvdWithCurrentKey = invalidPN then
-      let a := if a.keyPhase > 0 then a.startKeyDropTimer e rcvTime else a
-      ({ a with firstRcvdWithCurrentKey := pn }, .ok, .cur)
-    else (a, .ok, .cur)
+  let b := a.dropExpired rcvTime
+  let d := b.openDecide pn kp p
+  (b.openApply e rcvTime pn d, d.1, d.2)
 
 /-- `Open` -/
 def KA.openU (a : KA) (e : Env) (rcvTime pn kp : Int) (p : Pkt) : KA × Res × Used :=
